@@ -65,6 +65,7 @@ func checkC02(r *Run) {
 	r.Rule("C02.R2.codec", "pointerCodec.encode and decode lay the five pointer fields out at the same byte ranges, the ranges tile [0, pointerByteSize) exactly", 3)
 	r.Rule("C02.R3.provenance", "composite literals of domain.pointer occur only in Writer.commit, DB.Delete and pointerCodec.decode; in commit offset/size come from the tracked writer's Offset()/Len(); in Delete from fields of existing pointers and the clamped offsets", 5)
 	r.Rule("C02.R4.delete", "channel deletion: removeChannel, then Rename(dir, dir+'-DELETE-'+n) under DB.mu, then Remove of exactly that renamed name; crash-intermediate names are not accepted by the open-time scanners", 6)
+	r.Rule("C02.ERR", "no error returned by a call is discarded anywhere in cesium (result unbound or bound to _), except the tabled sites: a swallowed file-system, index or codec error makes a failed step look successful", 1)
 	r.Rule("C02.R6.close", "Writer.Close flushes the index whenever lazily persisted commits are possible: the flush is unconditional or guarded only by configuration fields, or by a writer flag that is never cleared outside Close (a commit that is later rejected must not be able to cancel the flush of earlier commits)", 1)
 	r.Rule("C02.R7.scan", "the open-time scan of data files tolerates a key that has no file yet (the file counter is bumped before the file is created): Stat is reached only behind Exists == true, or its error is filtered before it fails Open", 1)
 	r.Rule("C02.R5.gc", "DB.GarbageCollect persists the whole index after the last garbageCollectFile on every success path; garbageCollectFile rewrites offsets and renames both files inside one idx.mu write section, and removes only the _temp name", 5)
@@ -139,6 +140,7 @@ func checkC02(r *Run) {
 	checkGCOrder(r, p, la)
 	checkNameDisjointness(r, p, metaName, metaTmp)
 	checkCloseFlush(r, p)
+	checkErrDrop(r, p, "C02.ERR", func(fn *FuncNode) bool { return fn.InPkgs("cesium") && !fn.InPkgs("cesium/internal/testutil") }, 500)
 	checkScanTolerance(r, p)
 	r.Stats["fs_open_sites"] = nOpen
 	r.Stats["fs_rename_sites"] = nRename
